@@ -34,6 +34,36 @@ def run(c):
         c.mc("OrPipe", cfg_text(constants=consts(1, 0, 2, False), invariants=["NeverStuck"]),
              expect="NeverStuck", name="sensitivity: unlocked, reader blocks in os.read")
 
+    # ---- fileno() itself: several first callers at once (Fileno.tla)
+    fcon = lambda o, e, rc: {"Callers": {"A", "B"} if c.quick else {"A", "B", "C"}, "InitOut": o, "InitErr": e, "Feeds": 2, "Recheck": rc}
+    for (o, e) in [(1, 0), (0, 0)]:
+        c.mc_holds("Fileno", cfg_text(constants=fcon(o, e, True), invariants=["DescriptorTracksData", "OneDescriptor"], deadlock=False),
+                   name="concurrent fileno() init=%d,%d" % (o, e), workers=4)
+    c.mc("Fileno", cfg_text(constants=fcon(0, 0, False), invariants=["DescriptorTracksData"], deadlock=False),
+         expect="DescriptorTracksData", name="sensitivity: fileno() tests for the pipe before taking the lock", workers=4)
+    fbatch, fmeta = [], []
+    for pi, prog in enumerate(pipes.fileno_programs()):
+        for ex in pipes.fileno_explore(prog, "dfs", 1, 40 if c.quick else 400, c.seed):
+            fbatch.append(ex.verdict)
+            fmeta.append({"fileno_program": prog, "choices": ex.choices, "labels": ex.labels})
+            c.case(key=("fn%d" % pi, tuple(ex.choices)))
+        for ex in pipes.fileno_explore(prog, "random", 0, 5 if c.quick else 60, c.seed * 77 + pi):
+            fbatch.append(ex.verdict)
+            fmeta.append({"fileno_program": prog, "choices": ex.choices, "labels": ex.labels})
+            c.case(key=("fnr%d" % pi, tuple(ex.choices)))
+    fres, _ = c.trace("Fileno_Trace", fbatch)
+    if len(fres["DONE"]) != len(fbatch):
+        raise Machinery("trace validation consumed %d of %d fileno traces" % (len(fres["DONE"]), len(fbatch)))
+    c.traces += len(fbatch)
+
+    def fdescribe(tid, clause, row):
+        m = fmeta[tid - 1]
+        return ("%s_concurrent_fileno" % clause,
+                "%s: concurrent first fileno() calls, program %r, schedule %r, observation %r" % (
+                    clause, m["fileno_program"], m["labels"][:60], fbatch[tid - 1]["obs"]),
+                {"fileno_program": m["fileno_program"], "choices": m["choices"]})
+    c.verdicts(fres["VERDICT"], fdescribe)
+
     rnd = random.Random(c.seed)
     fixed = [
         {"init": (1, 0), "T": ["f2"], "R1": ["r1"], "R2": []},
